@@ -15,6 +15,7 @@ Plan gen_c17(uint64_t seed, int tier)
   p.cfg["fo"] = fo;
   gen_sched(p, r);
   gen_backend(p, r);
+  gen_backend_mode(p, r);
   int nsinks = static_cast<int>(r.range(2, 4));
   int nslots = static_cast<int>(r.range(2, 3));
   p.cfg["nsinks"] = nsinks;
